@@ -931,6 +931,23 @@ fn kf_xls_utf16_defined_name_and_formula_string() {
     assert_eq!(fm.get_value((0, 0)).map(|s| s.as_str()), Some("\"\u{3a9}x\"&\"y\""));
 }
 
+// C14: text outside the ASCII range in a shared formula
+
+#[test]
+fn kf_xlsx_shared_formula_with_non_ascii_text() {
+    let sh = sheet(
+        "<row r=\"1\"><c r=\"A1\"><f>1+1</f><v>2</v></c><c r=\"B1\" t=\"str\"><f t=\"shared\" ref=\"B1:B3\" si=\"0\">A1&amp;\"\u{e9}t\u{e9} \u{2211}\"</f><v>x</v></c></row>\
+         <row r=\"2\"><c r=\"B2\" t=\"str\"><f t=\"shared\" si=\"0\"/><v>x</v></c></row>\
+         <row r=\"3\"><c r=\"B3\" t=\"str\"><f t=\"shared\" si=\"0\"/><v>x</v></c></row>",
+    );
+    let mut wb: Xlsx<_> = Xlsx::new(Cursor::new(minimal_xlsx(&sh, None, None))).unwrap();
+    let f = wb.worksheet_formula("Sheet1").expect("a string literal with non-ASCII characters in a shared formula must not make the whole sheet's formulas unreadable");
+    assert_eq!(f.get_value((0, 0)).map(|s| s.as_str()), Some("1+1"));
+    assert_eq!(f.get_value((0, 1)).map(|s| s.as_str()), Some("A1&\"\u{e9}t\u{e9} \u{2211}\""));
+    assert_eq!(f.get_value((1, 1)).map(|s| s.as_str()), Some("A2&\"\u{e9}t\u{e9} \u{2211}\""));
+    assert_eq!(f.get_value((2, 1)).map(|s| s.as_str()), Some("A3&\"\u{e9}t\u{e9} \u{2211}\""));
+}
+
 // C10 / R-FMT-SCAN
 
 #[test]
